@@ -48,20 +48,24 @@ theorem dirPatch_of_same {r r' : Raw} {ch : List Nat} {B k : Nat}
       have : 39 ≤ k' * 39 := by have := Nat.mul_le_mul_right 39 this; omega
       omega
 
-/-- **`write_entry(loc, e)` as a step** -/
-theorem writeEntry_next {d : Disk} {bm cnt : Nat} (st : St d bm cnt) (B k : Nat) (hBnb : B ∉ bmRange bm cnt)
+/-- `write_entry` on slot `k + 1` of a directory block `B` (a key block has its header in slot 1): the block is rewritten with
+the entry's 39 bytes in place, its bitmap bit is cleared -/
+theorem writeEntry_next' {d : Disk} {bm cnt : Nat} (st : St d bm cnt) (B k : Nat) (hBnb : B ∉ bmRange bm cnt)
     (hBsz : B < d.raw.units.size) (hcov : B / 8 < (effBuf d bm cnt).size) (hlen : (unitAt d.raw B).length = 512)
-    (hk13 : k < 13) (hkey : B = 2 → 1 ≤ k) (hkind : B ≠ 2 → kindOf B (unitAt d.raw B) = DKind.entry) (e : Bytes) :
+    (hk13 : k < 13) (hkok : kindOf B (unitAt d.raw B) ≠ DKind.entry → 1 ≤ k) (e : Bytes) :
     ∃ d1, writeEntry { block := B, idx := k + 1 } e d = (.ok (), d1) ∧
       Next d d1 bm cnt (setUnit d.raw B (patched (unitAt d.raw B) (4 + k * 39) (e.take entryLen))) (clearBit (effBuf d bm cnt) B) := by
-  have hkinds : KindsOk d.raw 2 [B] := by
-    intro b hb
-    rw [List.mem_singleton] at hb; subst hb
-    refine ⟨fun h => ?_, hkind⟩
-    subst h; unfold kindOf; simp [volKeyBlock]
+  have hkey : B = 2 → 1 ≤ k := by
+    intro hb; apply hkok; subst hb; unfold kindOf; simp [volKeyBlock]
   have hoff : Dir.entryOff (k + 1) = 4 + k * 39 := by rw [entryOff_eq' _ (by omega)]; simp
   have hgd := getDirectory_st st B (unitAt d.raw B) hBnb (units_get_unitAt _ _ hBsz)
-  have hidx := idxOk_slot hkinds B k (List.mem_singleton.mpr rfl) hk13 hkey
+  have hge : Dir.getEntry { kind := kindOf B (unitAt d.raw B), bytes := (unitAt d.raw B).take dirLen } (k + 1) =
+      some (entryAt (unitAt d.raw B) k 39) := getEntry_std _ _ k hk13 hkok
+  have hidx : Dir.idxOk { kind := kindOf B (unitAt d.raw B), bytes := (unitAt d.raw B).take dirLen } (k + 1) = true := by
+    unfold Dir.getEntry at hge
+    split at hge
+    · assumption
+    · cases hge
   have hhdr : B = 2 →
       le16 (quantize ((splice ((unitAt d.raw B).take dirLen) (Dir.entryOff (k + 1)) (e.take entryLen)).take blockSize)) 39 = bm := by
     intro hb2
@@ -84,5 +88,20 @@ theorem writeEntry_next {d : Disk} {bm cnt : Nat} (st : St d bm cnt) (B k : Nat)
         patched (unitAt d.raw B) (4 + k * 39) (e.take entryLen) := by rw [← hoff]; rfl
     rw [this] at n1
     exact n1
+
+/-- the kind of a block of the volume directory's chain is not `entry` only for block 2 -/
+theorem kok_of_root {B k : Nat} {blk : Bytes} (hkey : B = 2 → 1 ≤ k) (hkind : B ≠ 2 → kindOf B blk = DKind.entry) :
+    kindOf B blk ≠ DKind.entry → 1 ≤ k := by
+  intro hne
+  by_cases hb : B = 2
+  · exact hkey hb
+  · exact absurd (hkind hb) hne
+
+theorem writeEntry_next {d : Disk} {bm cnt : Nat} (st : St d bm cnt) (B k : Nat) (hBnb : B ∉ bmRange bm cnt)
+    (hBsz : B < d.raw.units.size) (hcov : B / 8 < (effBuf d bm cnt).size) (hlen : (unitAt d.raw B).length = 512)
+    (hk13 : k < 13) (hkey : B = 2 → 1 ≤ k) (hkind : B ≠ 2 → kindOf B (unitAt d.raw B) = DKind.entry) (e : Bytes) :
+    ∃ d1, writeEntry { block := B, idx := k + 1 } e d = (.ok (), d1) ∧
+      Next d d1 bm cnt (setUnit d.raw B (patched (unitAt d.raw B) (4 + k * 39) (e.take entryLen))) (clearBit (effBuf d bm cnt) B) :=
+  writeEntry_next' st B k hBnb hBsz hcov hlen hk13 (kok_of_root hkey hkind) e
 
 end A2Verif.FsProdos
